@@ -110,9 +110,21 @@ func (h *History) CoqTx(b *Built) string {
 		ig, _ := ethcore.IntrinsicGas(t.Data, nil, isZero(t.To), true, true)
 		pl = fmt.Sprintf("(PContract %d)", ig)
 	}
-	return fmt.Sprintf("(mk_tx %d %s %s %s %s %s %s %d %d %s %s %s None)", t.Type, nlit(AddrN(t.From)), nlit(AddrN(t.To)),
+	evm := "None"
+	if b.Evm != nil {
+		created := "None"
+		if b.Evm.Created != nil {
+			created = "(Some " + nlit(AddrN(b.Evm.Created)) + ")"
+		}
+		var as []string
+		for _, a := range b.Evm.Accts {
+			as = append(as, fmt.Sprintf("(%s, %s, %d)", nlit(AddrN(a.Addr)), zbig(a.Bal), a.Nonce))
+		}
+		evm = fmt.Sprintf("(Some (mk_evm %s %d %s [%s]))", coqBool(b.Evm.OK), b.Evm.Gas, created, strings.Join(as, "; "))
+	}
+	return fmt.Sprintf("(mk_tx %d %s %s %s %s %s %s %d %d %s %s %s %s)", t.Type, nlit(AddrN(t.From)), nlit(AddrN(t.To)),
 		coqBool(len(t.From) == 20), coqBool(len(t.To) == 20), zbig(t.Amount), zbig(t.GasPrice), t.Gas, t.Nonce, pl,
-		nlit(hashN(b.Hash)), coqBool(b.SigOK))
+		nlit(hashN(b.Hash)), coqBool(b.SigOK), evm)
 }
 
 func isZero(a []byte) bool {
